@@ -31,6 +31,7 @@ type Program struct {
 	errIDs   map[string]int64
 	trusted  map[string]bool // extern contracts / interface contracts actually used
 	transp   map[string]bool // transparent functions unfolded
+	reach    map[*ssa.Function]map[*ssa.Function]bool
 }
 
 func funcKey(fn *ssa.Function) (pkg, key string) {
@@ -251,6 +252,7 @@ func (x *Exec) oblige(st *State, kind, site, descr string, props []string, goal 
 		if x.fc != nil {
 			ob.Uses = x.fc.Uses
 		}
+		ob.Abstracted = append([]string(nil), st.abstracted...)
 		x.obs = append(x.obs, ob)
 	}
 }
@@ -384,6 +386,7 @@ func (p *Program) verify(fn *ssa.Function, fc *FuncContract) (x *Exec) {
 	x.entry = st.clone()
 	x.addSmoke("requires", nil, st)
 	fr.block = fn.Blocks[0]
+	x.staticRecursion(st)
 	x.runPaths(st)
 	return x
 }
@@ -525,6 +528,8 @@ func (x *Exec) step(st *State, fr *Frame, ins ssa.Instruction) bool {
 		case Ar:
 			x.safe(st, "index", i.Pos(), "array index in range", And(Le(Int(0), idx), Lt(idx, Int(a.N))))
 			fr.env[i] = Sc{Select(a.A, idx)}
+		case Sc:
+			fr.env[i] = x.stringIndex(st, fr, a, idx, i.Pos())
 		default:
 			panic(unsupported(fmt.Sprintf("Index on %T", av)))
 		}
@@ -1019,6 +1024,8 @@ func isNilTerm(v Value) *Term {
 		return Eq(vv.T, Int(0))
 	case Sc:
 		return Eq(vv.T, Int(0))
+	case MapV:
+		return Eq(vv.Ref, Int(0))
 	}
 	panic(fmt.Sprintf("isNil on %T", v))
 }
@@ -1276,7 +1283,9 @@ func (x *Exec) slice(st *State, fr *Frame, i *ssa.Slice) Value {
 			hi = App("strlen", SInt, b.T)
 		}
 		x.safe(st, "slice", i.Pos(), "string slice bounds", And(Le(Int(0), lo), Le(lo, hi), Le(hi, App("strlen", SInt, b.T))))
-		return Sc{App("substr", SInt, b.T, lo, hi)}
+		sub := App("substr", SInt, b.T, lo, hi)
+		st.assume(Eq(App("strlen", SInt, sub), Sub(hi, lo)))
+		return Sc{sub}
 	}
 	panic(unsupported(fmt.Sprintf("Slice on %T", base)))
 }
